@@ -174,7 +174,9 @@ func c02Alphabet(c Cfg) []Op {
 func makeRunC02(writer, reader Cfg, readers []Cfg) func(cfg Cfg, keys []string, ops []Op, res *TaskResult) *Violation {
 	return func(cfg Cfg, keys []string, ops []Op, res *TaskResult) *Violation {
 		beginExecution()
-		w := NewWorld(writer, keys)
+		wc := writer
+		wc.Pool = cfg.Pool
+		w := NewWorld(wc, keys)
 		defer w.Destroy()
 		res.Execs++
 		if err := w.Open(); err != nil {
@@ -282,13 +284,14 @@ func c02Tasks(tier string) []Task {
 				br = append(br, c)
 			}
 		}
+
 		alpha := func(c Cfg) []Op {
 			return []Op{{K: "put", Key: "a", VC: "S"}, {K: "put", Key: "b", VC: "S"}, {K: "del", Key: "a"},
 				{K: "batch", Sub: []Op{{K: "put", Key: "a", VC: "S"}, {K: "put", Key: "b", VC: "M"}}, Dev: true},
 				{K: "put", Key: "b", VC: "B", Arg: 3, Dev: true}, {K: "xrestart", Dev: true}}
 		}
 		run := makeRunC02(bw, br[1], br)
-		tasks = append(tasks, seqTasks("C02", []seqLevel{{Name: "block-family-d4", Cfgs: []Cfg{bw}, Keys: keysAB, Alpha: alpha, Depth: 4, Dev: 2, Run: run}})...)
+		tasks = append(tasks, seqTasks("C02", []seqLevel{{Name: "block-family-d4", Cfgs: bothPools(bw), Keys: keysAB, Alpha: alpha, Depth: 4, Dev: 2, Run: run}})...)
 	}
 	// reopening with another DataFileSize and merging afterwards (the merge output then needs more / fewer files
 	// than its input): deeper than the pair levels, restricted to the pairs that differ in DataFileSize
